@@ -1816,6 +1816,64 @@ func c16RunSteps(r *Run, k *c16Keys, n int) {
 	w.bids = 0
 }
 
+// c16DBSeq runs a sequence of real clientdb UpdateSidecar calls on a store
+// prepared with AddSidecarWithBid ("bid"), AddSidecar ("plain") or nothing.
+func c16DBSeq(r *Run, k *c16Keys, w *c16World, kind string, items []string) string {
+	db := w.newDB("dbseq")
+	defer db.Close()
+	t := k.base()
+	switch kind {
+	case "bid":
+		t.Order = nil
+		if err := db.AddSidecarWithBid(t, k.newBid()); err != nil {
+			panic(err)
+		}
+	case "plain":
+		if err := db.AddSidecar(t); err != nil {
+			panic(err)
+		}
+	}
+	var outs []string
+	for _, it := range items {
+		st, _ := strconv.Atoi(it[:len(it)-1])
+		u := k.base()
+		u.State = sidecar.State(st)
+		switch it[len(it)-1] {
+		case 'n':
+			u.Order = nil
+		case 'z':
+			u.Order = &sidecar.Order{}
+		default:
+			u.Order = &sidecar.Order{BidNonce: k.bidNonce}
+		}
+		outs = append(outs, b01(db.UpdateSidecar(u) == nil))
+	}
+	return strings.Join(outs, ",")
+}
+
+func c16RunDBSeqs(r *Run, k *c16Keys, n int) {
+	w := newC16World(r, k)
+	defer w.close()
+	for c := 0; c < n; c++ {
+		kind := []string{"bid", "bid", "plain", "none"}[r.Rng.Intn(4)]
+		var items []string
+		for i := 0; i < 1+r.Rng.Intn(5); i++ {
+			st := []int{1, 2, 4, 5, 6, 5, 6}[r.Rng.Intn(7)]
+			items = append(items, fmt.Sprintf("%d%c", st, "nzbbb"[r.Rng.Intn(5)]))
+		}
+		out := c16DBSeq(r, k, w, kind, items)
+		r.Emit("C16 db "+kind+" "+strings.Join(items, ","), out)
+		r.Evaluations++
+		r.Count("db/" + kind)
+		if kind != "none" && strings.Contains(out, "0") {
+			r.Count("oracle/violation")
+			r.Violate("UpdateSidecar of a stored ticket failed ("+kind+": "+strings.Join(items, ",")+" -> "+out+
+				"): a side can no longer persist its (final) ticket state", "C16/safety",
+				[]string{"db " + kind + " " + strings.Join(items, ",")})
+		}
+	}
+}
+
 // c16ReplayStep re-runs one recorded single-step op.
 func c16ReplayStep(r *Run, k *c16Keys, op string) {
 	f := strings.Fields(op)
@@ -2062,6 +2120,20 @@ func runC16(r *Run) {
 			continue
 		}
 		r.Count("case/fixed")
+		if len(c) == 1 && strings.HasPrefix(c[0], "db ") {
+			f := strings.Fields(c[0])
+			if len(f) == 3 {
+				w := newC16World(r, k)
+				out := c16DBSeq(r, k, w, f[1], strings.Split(f[2], ","))
+				w.close()
+				r.Emit("C16 "+c[0], out)
+				r.Evaluations++
+				if f[1] != "none" && strings.Contains(out, "0") {
+					r.Violate("UpdateSidecar of a stored ticket failed: "+out, "C16/safety", []string{c[0]})
+				}
+			}
+			continue
+		}
 		if len(c) == 1 && strings.HasPrefix(c[0], "step") {
 			c16ReplayStep(r, k, c[0])
 			continue
@@ -2089,6 +2161,7 @@ func runC16(r *Run) {
 	t0 := time.Now()
 	c16RunSteps(r, k, nSteps)
 	r.Hist["ms/steps"] += int(time.Since(t0).Milliseconds())
+	c16RunDBSeqs(r, k, 40+r.N/10)
 
 	// (b) exhaustive shallow schedules + random deep ones
 	depth := 5
